@@ -318,10 +318,12 @@ class PathToken(TokenT):
                     buf.append(f"[{_quote_escaped(segment)}]")
                 elif index:
                     buf.append(f".{segment}")
-                elif (
-                    not nested
-                    and len(self.path) == 1
-                    and (segment in RESERVED_WORDS or segment in LOOP_WORDS)
+                elif not nested and (
+                    (
+                        len(self.path) == 1
+                        and (segment in RESERVED_WORDS or segment in LOOP_WORDS)
+                    )
+                    or segment[0].isspace()  # `{{` would swallow Unicode white space
                 ):
                     # On its own, a reserved word would not be read as a variable,
                     # and neither would an option name in a loop expression; a
